@@ -326,7 +326,7 @@ def _run_history(case, ctx):
             fi = r.randrange(len(files))
             db, model = files[fi], models[fi]
             before = copy.deepcopy(model.d)
-            op = r.choice(["ads_to", "ads_to", "ads_del", "mat_to", "mat_to", "mat_del", "iso_to", "iso_to", "iso_to", "iso_del", "iso_del", "iso_get", "iso_get", "ads_get", "mat_get", "type_ops"])
+            op = r.choice(["ads_to", "ads_to", "ads_del", "mat_to", "mat_to", "mat_del", "iso_to", "iso_to", "iso_to", "iso_del", "iso_del", "iso_get", "iso_get", "ads_get", "mat_get", "type_ops", "type_ops"])
             rec = {"op": op, "file": fi}
             expected = None
             extra_check = None
@@ -431,12 +431,26 @@ def _run_history(case, ctx):
                 which = r.choice(["adsorbate", "material"])
                 table = which + "_properties_type"
                 if r.random() < 0.6:
-                    rec.update(sub="type_to_db", table=table, type=tname)
+                    # the type with all, some or none of its descriptive fields; as a new entry or as an overwrite ("done on ALL fields")
+                    tdict = {"type": tname}
+                    for fld, val in (("unit", r.choice(["m3", "kg/m3", "-"])), ("description", r.choice(["first text", "second text"]))):
+                        if r.random() < 0.5:
+                            tdict[fld] = val
+                    present = tname in model.d["types"][table]
+                    ow = r.random() < (0.6 if present else 0.15)
+                    rec.update(sub="type_to_db", table=table, type=tname, fields=sorted(tdict), overwrite=ow)
                     fn = getattr(S, which + "_property_type_to_db")
-                    expected = "refused" if tname in model.d["types"][table] else "ok"
-                    if expected == "ok":
-                        model.d["types"][table] = sorted(model.d["types"][table] + [tname])
-                    out = _call(fn, {"type": tname}, db_path=db, verbose=False)
+                    if ow:
+                        expected = "ok"  # (an UPDATE: with nothing to update it is a no-op, not an error)
+                        if present and tname in model.d["type_rows"][table]:
+                            model.d["type_rows"][table][tname] = [tdict.get("unit"), tdict.get("description")]
+                    else:
+                        expected = "refused" if present else "ok"
+                        if expected == "ok":
+                            model.d["types"][table] = sorted(model.d["types"][table] + [tname])
+                            if tname.startswith("verif-"):
+                                model.d["type_rows"][table][tname] = [tdict.get("unit"), tdict.get("description")]
+                    out = _call(fn, tdict, db_path=db, overwrite=ow, verbose=False)
                 else:
                     rec.update(sub="type_delete_db", table=table, type=tname)
                     fn = getattr(S, which + "_property_type_delete_db")
@@ -445,6 +459,7 @@ def _run_history(case, ctx):
                     expected = "refused" if (tname not in model.d["types"][table] or used) else "ok"
                     if expected == "ok":
                         model.d["types"][table] = [t for t in model.d["types"][table] if t != tname]
+                        model.d["type_rows"][table].pop(tname, None)
                     out = _call(fn, tname, db_path=db, verbose=False)
             rec["expected"] = expected
             rec["outcome"] = out[0] if out[0] == "ok" else type(out[1]).__name__
@@ -573,6 +588,20 @@ def _judge(ctx, rec, out, expected, model, before, db, extra_check, history):
         ctx.case(["retrieve", sorted(crit)])
         if len(got_rows) != len(exp_ids):
             ctx.violation("iso_get/criteria-selection", "the number of isotherms retrieved differs from the model", criteria=crit, got=len(got_rows), expected=len(exp_ids))
+        else:
+            # every stored isotherm comes back with *its own* data / model (the multiset of data blocks is the stored one)
+            def _blk(rows):
+                return sorted(json.dumps([[d[0], json.loads(d[2]) if isinstance(d[2], str) else d[2]] for d in row["data"]], sort_keys=True) for row in rows)
+            try:
+                exp_blocks = _blk([model.d["isotherms"][i] for i in exp_ids])
+                got_blocks = _blk([_iso_row(b) for b in got_rows])
+            except Exception as exc:
+                ctx.error("c08: data-block comparison", exc)
+                exp_blocks = got_blocks = None
+            ctx.count("retrieval_equality", "data-blocks")
+            if exp_blocks != got_blocks:
+                ndiff = sum(1 for a, b in zip(exp_blocks or [], got_blocks or []) if a != b)
+                ctx.violation("iso_get/retrieved-data-not-the-stored-data", "the isotherms retrieved do not carry the data / models that were stored", criteria=crit, n=len(got_rows), n_different=ndiff)
     elif what in ("ads_retrieved", "mat_retrieved"):
         grp = "adsorbates" if what == "ads_retrieved" else "materials"
         got_items = {}
